@@ -22,6 +22,9 @@ SYNTHETIC = {
     "vt1": "1 * second",
     "vt2": "2 * second",
     "vt16": "16 * second",
+    # dimensionless units with a scale (like pint's percent, degree): same dimension as '' but a different factor
+    "vd4": "4",
+    "vdh": "0.5",
 }
 
 EXACT_FAMILIES = {
@@ -31,7 +34,7 @@ EXACT_FAMILIES = {
     "velocity": ["vl1/vt1", "vl2/vt1", "vl8/vt2", "vlq/vt16"],
     "density": ["vm1/vl1**3", "vm4/vl2**3", "vmh/vlq**3"],
     "energy": ["vm1*vl1**2/vt1**2", "vm4*vl2**2/vt2**2"],
-    "dimensionless": ["", "dimensionless"],
+    "dimensionless": ["", "dimensionless", "vd4", "vdh", "radian"],
 }
 
 REAL_FAMILIES = {
@@ -42,7 +45,7 @@ REAL_FAMILIES = {
     "density": ["g/cm**3", "kg/m**3", "M_sun/pc**3"],
     "energy": ["erg", "J", "eV"],
     "luminosity": ["L_sun", "L_bol0", "W", "erg/s"],
-    "dimensionless": ["", "dimensionless"],
+    "dimensionless": ["", "dimensionless", "percent", "degree", "radian", "arcmin"],
     "temperature": ["K"],
     "bfield": ["G", "T"],
     "pressure": ["erg/cm**3", "Pa"],
@@ -70,6 +73,8 @@ def unit_fd(osyris, unit):
     q = (1.0 * u).to_root_units()
     dims = [Fraction(0)] * len(ROOTS)
     for name, exp in q.units._units.items():
+        if name == "radian":
+            continue  # pint: radian is a root unit of dimension [] (degree -> '' converts with factor pi/180)
         if name not in ROOTS:
             raise UnsupportedUnit(name)
         e = Fraction(exp).limit_denominator(12)
